@@ -392,7 +392,61 @@ def r5(F, rep):
         raise AnalysisBroken("load_coords: copy through sorted_ids_map not found")
 
 
+def r6(F, rep, rid="C02-R6"):
+    rep.rule(rid, "a line cursor counts the lines that were consumed: where a reader skips to a wanted line with "
+                  "`while (cursor < wanted) { getline(...); cursor++; }`, the cursor is incremented exactly as many times as "
+                  "getline() is called at every loop level of the function (nested loops counted separately) -- an extra "
+                  "increment per record makes every record after a gap come from the line before the wanted one: atoms get "
+                  "their neighbours' reference coordinates")
+    n = 0
+    for f in sorted(F.funcs.values(), key=lambda g: g.q):
+        if "/src/" not in f.file or f.body is None:
+            continue
+        cursors = {}
+        for w in f.walk():
+            if w["k"] != "WhileStmt":
+                continue
+            cond = X.kids(w)[0] if X.kids(w) else None
+            if cond is None:
+                continue
+            cs = X.strip(cond)
+            if cs["k"] != "BinaryOperator" or cs.get("op") not in ("<", "<="):
+                continue
+            l = X.strip(X.kids(cs)[0])
+            if l["k"] != "DeclRefExpr" or "d" not in l:
+                continue
+            if not any(c["k"] == "CallExpr" and X.callee_name(c) == "getline" for c in f.walk(w)):
+                continue
+            cursors[l["d"]] = l.get("n")
+        for d, name in cursors.items():
+            n += 1
+
+            def level_of(node):
+                for an in f.ancestors(node):
+                    if an["k"] in ("ForStmt", "WhileStmt", "DoStmt", "CXXForRangeStmt"):
+                        return an["i"]
+                return 0
+            incs, gets = {}, {}
+            first_decl = [x for x in f.walk() if x["k"] == "VarDecl" and x.get("d") == d]
+            scope = f.parent(f.parent(first_decl[0])) if first_decl and f.parent(first_decl[0]) is not None else None
+            for x in f.walk(scope):
+                if x["k"] == "UnaryOperator" and x.get("op") in ("++", "post++") and X.strip(X.kids(x)[0]).get("d") == d:
+                    incs[level_of(x)] = incs.get(level_of(x), 0) + 1
+                elif x["k"] == "CompoundAssignOperator" and x.get("op") == "+=" and X.strip(X.kids(x)[0]).get("d") == d:
+                    incs[level_of(x)] = incs.get(level_of(x), 0) + 1
+                elif x["k"] == "CallExpr" and X.callee_name(x) == "getline":
+                    gets[level_of(x)] = gets.get(level_of(x), 0) + 1
+            bad = sorted(l for l in set(incs) | set(gets) if l != 0 and incs.get(l, 0) != gets.get(l, 0))
+            rep.add(rid, "%s|%s" % (f.q, name), f.loc(first_decl[0]) if first_decl else f.loc(),
+                    "%s: line cursor `%s` is advanced %s" % (f.q, name, "once per getline() at every loop level" if not bad else
+                                                             "%s time(s) against %s getline() call(s) in one loop" % ([incs.get(l, 0) for l in bad], [gets.get(l, 0) for l in bad])), not bad,
+                    detail="the cursor no longer equals the number of lines consumed", func=f.q)
+    if n < 1:
+        raise AnalysisBroken("%s: no line-skipping loop found (the XYZ reader expected)" % rid)
+
+
 def run(F, rep, tier):
+    r6(F, rep)
     r1(F, rep)
     r2(F, rep)
     r3(F, rep)
